@@ -50,8 +50,8 @@ def distance_point_to_segment(p, s1, s2, delta=0.0, constrain=True):
     :param delta: Stay away from the endpoints with this factor
     :return: (Distance in meters, projected location on segment, relative location on segment)
     """
-    lat1, lon1 = s1  # Start point
-    lat2, lon2 = s2  # End point
+    lat1, lon1 = s1[0], s1[1]  # Start point
+    lat2, lon2 = s2[0], s2[1]  # End point
     lat3, lon3 = p[0], p[1]
     lat1, lon1 = radians(lat1), radians(lon1)
     lat2, lon2 = radians(lat2), radians(lon2)
